@@ -63,6 +63,13 @@ def catalogue():
         t = wn.get_node("T1"); t.mixing_model = "2COMP"; t.mixing_fraction = 0.4
     @dev("t_mixing_fifo", "tmix")
     def _(wn): wn.get_node("T1").mixing_model = "FIFO"
+    @dev("t_mixing_zero", "tmix")
+    def _(wn):
+        t = wn.get_node("T1"); t.mixing_model = "2COMP"; t.mixing_fraction = 0.0
+    @dev("t_leak")
+    def _(wn): wn.get_node("T1").add_leak(wn, area=2.0e-4, discharge_coeff=0.6, start_time=3600, end_time=7200)
+    @dev("j_leak")
+    def _(wn): wn.get_node("J2").add_leak(wn, area=1.0e-4, discharge_coeff=0.75, start_time=0, end_time=None)
     @dev("t_bulk")
     def _(wn): wn.get_node("T1").bulk_coeff = -1.0e-6
     @dev("t_quality")
@@ -250,6 +257,22 @@ def catalogue():
     def _(wn):
         cond = C.TimeOfDayCondition(wn, ">=", 20 * 3600)
         wn.add_control("rule1", C.Rule(cond, [act(wn, "p3", "status", LS.Closed)]))
+    @dev("r_clock_after_midnight", "rule1")
+    def _(wn):
+        cond = C.TimeOfDayCondition(wn, ">=", 1800)
+        wn.add_control("rule1", C.Rule(cond, [act(wn, "p3", "status", LS.Closed)], priority=3))
+    @dev("r_clock_after_noon", "rule1")
+    def _(wn):
+        cond = C.AndCondition(C.TimeOfDayCondition(wn, ">=", 12 * 3600 + 1800), C.TimeOfDayCondition(wn, "<", 23 * 3600 + 900))
+        wn.add_control("rule1", C.Rule(cond, [act(wn, "p3", "status", LS.Closed)], [act(wn, "p3", "status", LS.Open)], priority=3))
+    @dev("r_relative", "rule1")
+    def _(wn):
+        cond = C.RelativeCondition(wn.get_node("T1"), "level", ">", wn.get_node("T1"), "min_level")
+        wn.add_control("rule1", C.Rule(cond, [act(wn, "p3", "status", LS.Open)], priority=3))
+    @dev("k_junction_head", "ctl2")
+    def _(wn): wn.add_control("c2", C.Control(C.ValueCondition(wn.get_node("J3"), "head", ">", 35.5), act(wn, "p3", "status", LS.Closed)))
+    @dev("k_clock_after_midnight", "ctl1")
+    def _(wn): wn.add_control("c1", C.Control(C.TimeOfDayCondition(wn, "=", 900), act(wn, "p3", "status", LS.Open)))
     @dev("r_head_demand", "rule1")
     def _(wn):
         cond = C.AndCondition(C.ValueCondition(wn.get_node("J2"), "head", ">", 33.0), C.ValueCondition(wn.get_node("J1"), "demand", "<=", 0.005))
@@ -295,7 +318,10 @@ def paired():
 NAMED_PAIRS = [("o_reaction", "p_coeffs"), ("o_reaction", "t_bulk"), ("o_qual_chem", "s_mass"), ("o_qual_chem", "s_concen"),
                ("o_qual_chem", "j_quality"), ("o_defpat", "j_second_demand"), ("o_defpat", "j_no_demand"), ("o_time", "k_clock"),
                ("o_clock_pm", "k_clock"), ("o_time", "r_clock_noprio"), ("o_pdd", "j_pdd_params"), ("o_energy", "pu_energy"),
-               ("t_volcurve", "k_level_above"), ("p_cv", "k_time_close"), ("j_second_demand", "o_hyd"), ("o_hyd", "j_emitter")]
+               ("t_volcurve", "k_level_above"), ("t_volcurve", "t_overflow"), ("t_volcurve", "t_minvol"), ("o_clock_pm", "r_clock_after_noon"), ("p_cv", "k_time_close"), ("j_second_demand", "o_hyd"), ("o_hyd", "j_emitter")]
+
+
+NOT_IN_INP = ("j_leak", "t_leak", "r_relative", "k_junction_head")      # WNTR-only: no place in the INP format
 
 
 def enumerate_specs(dmax, keep=None):
